@@ -897,7 +897,9 @@ class C02(Prop):
             "KeyError beyond the stored indices and refused time/iterate mixes; bare shifted leaves; "
             "several time-dependent arrays with the SAME name on subdomains, the interface and boundary "
             "grids whose grid ids coincide, in one tree (also shifted / under previous_timestep); "
-            "HISTORIES: build - evaluate - change shared Scalar objects with set_value (theta/dt, "
+            "40% of the cases evaluated with an explicit state= vector that differs from the stored "
+            "iterate at every dof (shifted leaves, incl. previous_iteration steps 1 and 2, must still "
+            "read the stores); HISTORIES: build - evaluate - change shared Scalar objects with set_value (theta/dt, "
             "1/dt, 2.0*dt patterns) and store new values for all variables and arrays - evaluate the "
             "already built operator again (tree re-serialised, oracle on the spec with the current "
             "scalar values); "
